@@ -11,7 +11,7 @@
      port   1..5 digits, optional
      scheme omitted (udp) or one of scheme_table: udp tcp tls https http h3 quic doq tcp+pipeline tls+pipeline
      path   with an explicit scheme: nothing or anything starting with '/', '?' or '#' *)
-From Mos Require Import Base.Prelude Net.Addr Net.TlsCfg Net.AddrProofs Net.UpCfg Net.UpCfgProofs.
+From Mos Require Import Base.Prelude Net.Addr Net.TlsCfg Net.AddrProofs Net.UpCfg Net.UpCfgProofs Net.UpRouter Net.UpRouterProofs.
 From Coq Require Import String Ascii.
 
 Definition s2l (s : string) : list N := map N_of_ascii (list_ascii_of_string s).
@@ -470,4 +470,115 @@ Example C17_example_host_default_port :
     Some (NTcp, s2l "dns.example:443", Some (s2l "dns.example"), Some (s2l "dns.example:443")) /\
   show (endpoint_of (s2l "tls://[2001:db8::53]:853") []) =
     Some (NTcp, s2l "[2001:db8::53]:853", Some (s2l "2001:db8::53"), None).
+Proof. vm_compute. repeat split. Qed.
+
+(* --- SEVERAL upstreams in one router (round 6) ------------------------------------------------------------ *)
+(* Net/UpRouter.v models the loop of run(): initUpstream applied to the entries of `upstreams:` in order; the only
+   thing an entry sees of the others is their tags (dup tag).  [upr_init_router cs] = the (tag, upstream) list. *)
+
+(* INDEPENDENCE.  The mapping of a list of entries is the map of the single-entry mapping: the i-th upstream of a
+   started router is exactly what initUpstream makes of the i-th entry ALONE — its own dial_addr, its own
+   makeTlsConfig(entry.tls): insecure_skip_verify, ca, cert/key of an entry never reach another entry, whatever the
+   entries before or after it are and whichever TLS fields they share. *)
+Theorem C17_upstreams_independent : forall cs us,
+  upr_init_router cs = Ok us ->
+  List.length us = List.length cs /\
+  (forall i c, nth_error cs i = Some c ->
+     exists u, nth_error us i = Some (upc_tag c, u) /\ upc_init_upstream c = Ok u) /\
+  map (fun tu : list N * upc_upstream => Ok (snd tu)) us = map upc_init_upstream cs /\
+  map fst us = map upc_tag cs.
+Proof.
+  intros cs us H. destruct (upstreams_independent cs us H) as [A B]. destruct (upstreams_are_map cs us H) as [C D].
+  repeat split; assumption.
+Qed.
+Print Assumptions C17_upstreams_independent.
+
+(* the router starts iff the tags are pairwise distinct and every entry is accepted alone *)
+Theorem C17_router_starts_iff : forall cs,
+  is_ok (upr_init_router cs) = true <->
+  NoDup (map upc_tag cs) /\ forall c, In c cs -> is_ok (upc_init_upstream c) = true.
+Proof. exact router_starts_iff. Qed.
+Print Assumptions C17_router_starts_iff.
+
+(* ... hence the handshake verdict of EVERY upstream of a router equals the verdict of its own entry alone
+   (C17_upstream_every_tls_spelling then gives it in closed form: exactly the entry's ca / system roots,
+   unless the ENTRY's insecure_skip_verify) *)
+Theorem C17_upstreams_independent_verdict : forall (cert : Type) (chains_to : ca_pool -> cert -> bool)
+    (name_matches : cert -> list N -> bool) (time_valid : cert -> bool) cs i c peer,
+  is_ok (upr_init_router cs) = true -> nth_error cs i = Some c ->
+  upr_exchange_ok cert chains_to name_matches time_valid cs i peer =
+  upc_exchange_ok cert chains_to name_matches time_valid c peer.
+Proof. exact upstreams_independent_verdict. Qed.
+Print Assumptions C17_upstreams_independent_verdict.
+
+(* the instance the uprouter kind runs: the per-entry results of a router are the results of the entries alone *)
+Theorem C17_upstreams_independent_case : forall es vs,
+  upr_case es = Some vs -> map Some vs = map upr_case_alone es.
+Proof. exact upr_case_independent. Qed.
+Print Assumptions C17_upstreams_independent_case.
+
+(* REFUTED for a mapping with shared state: a client tls.Config cache keyed by the ca / cert / key files only
+   (upr_shared_router).  "tls://a" with insecure_skip_verify listed before the strict "tls://b" (same — absent —
+   files): the upstream built for b is NOT initUpstream(b), it accepts a self-signed server that b alone refuses;
+   in the other order the skip-verify upstream refuses what it alone accepts. *)
+Theorem C17_shared_tls_state_refuted :
+  (exists us u, upr_shared_router [upr_w_lan; upr_w_public] = Ok us /\
+     nth_error us 1 = Some (upc_tag upr_w_public, u) /\
+     upc_init_upstream upr_w_public <> Ok u /\
+     upr_verdict u (Some CSelfSigned) false = true /\
+     upr_case_alone (upr_w_public, (Some CSelfSigned, false)) = Some (false, s2l "b:853")) /\
+  (exists us u, upr_shared_router [upr_w_public; upr_w_lan] = Ok us /\
+     nth_error us 1 = Some (upc_tag upr_w_lan, u) /\
+     upr_verdict u (Some CSelfSigned) false = false /\
+     upr_case_alone (upr_w_lan, (Some CSelfSigned, false)) = Some (true, s2l "a:853")).
+Proof. exact shared_tls_state_refuted. Qed.
+Print Assumptions C17_shared_tls_state_refuted.
+
+(* ... while with ONE entry per router the shared design is indistinguishable from the real one: the difference is
+   only observable with at least two entries in one router *)
+Theorem C17_shared_tls_state_needs_two : forall c,
+  match upr_shared_router [c], upr_init_router [c] with
+  | Ok a, Ok b => a = b
+  | Ok _, _ | _, Ok _ => False
+  | _, _ => True
+  end.
+Proof. exact shared_single_entry_same. Qed.
+Print Assumptions C17_shared_tls_state_needs_two.
+
+Example C17_example_uprouter :
+  let o ca ins := {| o_ca := ca; o_cert_key := false; o_insecure := ins; o_verify_client := false |} in
+  let e tag addr ca ins := {| upc_tag := tag; upc_addr := addr; upc_dial_addr := s2l "127.0.0.1:8853";
+                              upc_tls := o ca ins |} in
+  (* skip-verify first, strict second, and the other way round: each keeps its own verdict *)
+  upr_case [(e (s2l "lan") (s2l "tls://lan.test") false true, (Some CSelfSigned, false));
+            (e (s2l "pub") (s2l "DoQ://dns.test") false false, (Some CSelfSigned, false));
+            (e (s2l "pin") (s2l "tls+pipeline://dns.test") true false, (Some CValid, false));
+            (e (s2l "sys") (s2l "https://dns.test/q") false false, (Some CValid, false))] =
+    Some [(true, s2l "127.0.0.1:8853"); (false, s2l "127.0.0.1:8853"); (true, s2l "127.0.0.1:8853");
+          (false, s2l "127.0.0.1:8853")] /\
+  upr_case [(e (s2l "pub") (s2l "tls://dns.test") true false, (Some CSelfSigned, false));
+            (e (s2l "lan") (s2l "tls://lan.test") true true, (Some CSelfSigned, false))] =
+    Some [(false, s2l "127.0.0.1:8853"); (true, s2l "127.0.0.1:8853")] /\
+  (* duplicate tag: the router does not start *)
+  upr_case [(e (s2l "u") (s2l "tls://a.test") false false, (None, false)); (e (s2l "u") (s2l "udp://b.test") false false, (None, false))] = None.
+Proof. vm_compute. repeat split. Qed.
+
+(* SEVERAL TLS listeners in one router: each listener serves / refuses exactly as the same listener alone
+   (its own verify_client_cert, its own ca), and the router starts iff every listener starts alone *)
+Theorem C17_listeners_independent : forall es vs,
+  lsr_case es = Some vs -> vs = map (fun e => tls_listener_case (fst e) (snd e)) es.
+Proof. exact lsr_case_independent. Qed.
+Print Assumptions C17_listeners_independent.
+
+Theorem C17_listeners_start_iff : forall es,
+  (exists vs, lsr_case es = Some vs) <-> forall e, In e es -> tls_listener_starts (fst e) = true.
+Proof. exact lsr_starts_iff. Qed.
+Print Assumptions C17_listeners_start_iff.
+
+Example C17_example_lsrouter :
+  let o ca vc := {| o_ca := ca; o_cert_key := true; o_insecure := false; o_verify_client := vc |} in
+  lsr_case [(o true false, None); (o true true, None); (o true true, Some CValid); (o false false, Some CSelfSigned)] =
+    Some [true; false; true; true] /\
+  lsr_case [(o true true, None); (o true false, None)] = Some [false; true] /\
+  lsr_case [(o true false, None); (o false true, None)] = None.
 Proof. vm_compute. repeat split. Qed.
